@@ -14,6 +14,7 @@ import (
 	"io"
 	"net/http"
 	"os"
+	"regexp"
 	"sort"
 	"strings"
 	"sync"
@@ -52,6 +53,8 @@ func (r *vC19Rec) snapshot() []vC19Req {
 	defer r.mu.Unlock()
 	return append([]vC19Req(nil), r.reqs...)
 }
+
+var vC19UUID4 = regexp.MustCompile(`^[0-9a-f]{8}-[0-9a-f]{4}-4[0-9a-f]{3}-[89ab][0-9a-f]{3}-[0-9a-f]{12}$`)
 
 func vC19Paths(prefix string, v interface{}, out map[string]bool) {
 	if m, ok := v.(map[string]interface{}); ok {
@@ -139,7 +142,18 @@ func TestVerifC19Collector(t *testing.T) {
 		state := func() map[string]interface{} {
 			reqs := rec.snapshot()
 			keys, hdrs, leaks := map[string]bool{}, map[string]bool{}, map[string]bool{}
-			urlOK := true
+			urlOK, idsOK := true, true
+			host, _ := os.Hostname()
+			for _, q := range reqs {
+				var pl map[string]interface{}
+				id := ""
+				if json.Unmarshal(q.body, &pl) == nil {
+					id, _ = pl["instance_id"].(string)
+				}
+				if !vC19UUID4.MatchString(id) || id == host {
+					idsOK = false
+				}
+			}
 			if n := len(reqs); n > 0 {
 				var pl interface{}
 				if json.Unmarshal(reqs[n-1].body, &pl) == nil {
@@ -166,7 +180,7 @@ func TestVerifC19Collector(t *testing.T) {
 			last = len(reqs)
 			return map[string]interface{}{"enabled": cfg != nil && cfg.Enabled, "collector": started && c != nil && c.config.Enabled,
 				"userData": false, "sent": len(reqs), "keys": vC19List(keys), "hdrs": vC19List(hdrs), "leaks": vC19List(leaks),
-				"urlOK": urlOK}
+				"urlOK": urlOK, "idsOK": idsOK}
 		}
 		waitMore := func() {
 			deadline := time.Now().Add(window)
@@ -183,19 +197,31 @@ func TestVerifC19Collector(t *testing.T) {
 			obs := map[string]interface{}{"a": a, "err": ""}
 			switch a {
 			case "LoadConfig":
-				cfg = &Config{Enabled: route["prog"] != "false", Interval: interval, DataDir: dir + "/" + secret}
+				iv := map[string]time.Duration{"custom": interval, "default": DefaultInterval, "zero": 0, "negative": -5 * time.Second}[route["ival"].(string)]
+				cfg = &Config{Enabled: route["prog"] != "false", Interval: iv, DataDir: dir + "/" + secret}
+				if route["idfile"] == "unusable" {
+					// the instance-id file can be neither read nor written: it is a directory
+					if err := os.MkdirAll(cfg.DataDir+"/.instance_id", 0o755); err != nil {
+						t.Fatalf("INCONCLUSIVE: %v", err)
+					}
+				}
 				c, err = New(cfg, "v-test", log)
-				if err != nil {
+				if err != nil && route["idfile"] != "unusable" {
 					obs["err"] = err.Error()
 				}
+				if err != nil {
+					c = nil // no collector: the embedding server carries on without telemetry
+				}
 			case "Start":
-				c.Start()
-				started = true
+				if c != nil {
+					c.Start()
+					started = true
+				}
 				waitMore()
 			case "Tick":
 				waitMore()
 			case "Stop":
-				if !stopped {
+				if !stopped && c != nil {
 					c.Stop()
 					stopped = true
 				}
